@@ -2,6 +2,7 @@ package rules
 
 import (
 	"fmt"
+	"os"
 	"go/token"
 	"go/types"
 	"reflect"
@@ -2330,5 +2331,359 @@ func ruleSlideTablesNotSkipped(c *eng.Ctx) {
 			c.Check(bad == token.NoPos, R, key, ci.Pos(), "tables rendered regardless of the slide's other content",
 				"the tables of a slide are rendered only under a test of its other content ("+c.P.Pos(bad)+") that does not look at the tables: a table-only slide loses all its cell text")
 		}
+	}
+}
+
+// R14.12 [C14]
+func ruleExportTruncates(c *eng.Ctx) {
+	const R = "R14.12-EXPORT-TRUNCATES"
+	c.Rule(R, "a file an export is written to is opened truncated: os.Create, or os.OpenFile whose flags contain O_TRUNC (or O_EXCL / O_APPEND, which cannot leave an old tail either); O_WRONLY|O_CREATE alone keeps the tail of a longer earlier export after the new records, and the file no longer parses back to the exported collection", 0, 1)
+	for _, fn := range c.P.ModuleFuncs() {
+		if fn.Blocks == nil {
+			continue
+		}
+		n := 0
+		for _, ci := range eng.CallsNamed(fn, true, "os.OpenFile") {
+			args := ci.Common().Args
+			if len(args) < 2 {
+				continue
+			}
+			flags, isC := eng.ConstInt(args[1])
+			if !isC {
+				continue
+			}
+			const wr = int64(os.O_WRONLY | os.O_RDWR)
+			if flags&wr == 0 || flags&int64(os.O_CREATE) == 0 {
+				continue
+			}
+			n++
+			ok := flags&int64(os.O_TRUNC|os.O_EXCL|os.O_APPEND) != 0
+			c.Check(ok, R, fmt.Sprintf("%s#open%d", eng.FuncName(fn), n), ci.Pos(), "opened truncated", "the output file is opened for writing with O_CREATE but without O_TRUNC: when it already exists and is longer than the new content, the old tail stays behind the new records")
+		}
+	}
+}
+
+// R18.13 [C18, C16, C17]
+func ruleMemberNameExact(c *eng.Ctx) {
+	const R = "R18.13-MEMBER-NAME-EXACT"
+	c.Rule(R, "a part of a ZIP container is found by exact comparison with the member's name: ZIP member names are case-sensitive, so a case-folding comparison (strings.EqualFold, lower-casing both sides) returns the first of two members that differ only in case, whichever part was asked for", 0, 1)
+	isMemberName := func(v ssa.Value) bool {
+		for w := range eng.Slice(v, func(call *ssa.Call) bool {
+			n := eng.CalleeName(call)
+			return n == "strings.ToLower" || n == "strings.ToUpper"
+		}) {
+			if fr, ok := eng.AsField(w); ok && fr.Field == "Name" && (strings.HasSuffix(fr.Struct, "zip.FileHeader") || strings.HasSuffix(fr.Struct, "zip.File")) {
+				return true
+			}
+		}
+		return false
+	}
+	for _, fn := range c.P.ModuleFuncs() {
+		if fn.Blocks == nil {
+			continue
+		}
+		n := 0
+		for _, ci := range eng.CallsNamed(fn, true, "strings.EqualFold") {
+			args := ci.Common().Args
+			if isMemberName(args[0]) || isMemberName(args[1]) {
+				n++
+				c.Viol(R, fmt.Sprintf("%s#fold%d", eng.FuncName(fn), n), ci.Pos(), "a ZIP member is selected by a case-insensitive name comparison: of two parts whose names differ only in case the first in archive order is returned for both")
+			}
+		}
+		eng.Instrs(fn, true, func(in ssa.Instruction) {
+			b, ok := in.(*ssa.BinOp)
+			if !ok || b.Op != token.EQL {
+				return
+			}
+			for _, side := range []ssa.Value{b.X, b.Y} {
+				if call, ok := side.(*ssa.Call); ok {
+					if nm := eng.CalleeName(call); (nm == "strings.ToLower" || nm == "strings.ToUpper") && isMemberName(call.Call.Args[0]) {
+						n++
+						c.Viol(R, fmt.Sprintf("%s#fold%d", eng.FuncName(fn), n), b.Pos(), "a ZIP member is selected by comparing case-folded names: of two parts whose names differ only in case the first in archive order is returned for both")
+					}
+				}
+			}
+		})
+	}
+}
+
+// R17.9 [C17, C15]
+func ruleGridFromCells(c *eng.Ctx) {
+	const R = "R17.9-GRID-FROM-CELLS"
+	c.Rule(R, "the dense grid of a worksheet is sized from the cells that are there and each of its rows has storage of its own: no allocation size of parseWorksheet's grid depends on a declared range (the <dimension> element, parsed with ParseRangeRef, is written separately from the cells and is often stale), and every row stored into the grid is a slice made in the same trip of the loop", 3, 0)
+	root := c.P.Func("xlsx.(*Reader).parseWorksheet")
+	if root == nil {
+		c.Undec(R, "xlsx.(*Reader).parseWorksheet", token.NoPos, "anchor not found")
+		return
+	}
+	cluster := eng.Cluster(root, 2)
+	isCells := func(t types.Type) (rows, cells bool) {
+		sl, ok := t.Underlying().(*types.Slice)
+		if !ok {
+			return false, false
+		}
+		if in, ok := sl.Elem().Underlying().(*types.Slice); ok {
+			if _, deeper := in.Elem().Underlying().(*types.Slice); !deeper && strings.HasSuffix(eng.TypeName(in.Elem()), "xlsx.Cell") {
+				return true, false
+			}
+			return false, false
+		}
+		if strings.HasSuffix(eng.TypeName(sl.Elem()), "xlsx.Cell") {
+			return false, true
+		}
+		return false, false
+	}
+	nSize, nRow := 0, 0
+	for _, fn := range cluster {
+		if fn.Pkg != root.Pkg {
+			continue
+		}
+		eng.Instrs(fn, false, func(in ssa.Instruction) {
+			switch x := in.(type) {
+			case *ssa.MakeSlice:
+				rows, cells := isCells(x.Type())
+				if !rows && !cells {
+					return
+				}
+				nSize++
+				declared := token.NoPos
+				for _, sz := range []ssa.Value{x.Len, x.Cap} {
+					for w := range eng.SliceInter(sz, func(*ssa.Call) bool { return true }, cluster) {
+						if call, ok := w.(*ssa.Call); ok && strings.HasSuffix(eng.CalleeName(call), "xlsx.ParseRangeRef") {
+							declared = call.Pos()
+						}
+						if fr, ok := eng.AsField(w); ok && fr.Field == "Dimension" {
+							declared = w.Pos()
+						}
+					}
+				}
+				c.Check(declared == token.NoPos, R, fmt.Sprintf("%s#grid-size%d", eng.FuncName(fn), nSize), x.Pos(), "sized from the scan of the cells",
+					"the grid is sized from a declared range ("+c.P.Pos(declared)+") instead of from the cells: cells outside a stale declaration are dropped")
+			case *ssa.Store:
+				// Rows[i] = <row>
+				ia, ok := x.Addr.(*ssa.IndexAddr)
+				if !ok {
+					return
+				}
+				if rows, _ := isCells(ia.X.Type()); !rows || !eng.InLoop(x.Block()) {
+					return
+				}
+				nRow++
+				fresh := false
+				switch v := x.Val.(type) {
+				case *ssa.MakeSlice:
+					hs := enclosingLoopHeaders(x.Block())
+					fresh = len(hs) > 0 && hs[len(hs)-1].Dominates(v.Block()) && hs[len(hs)-1] != v.Block()
+					if v.Block() == x.Block() {
+						fresh = true
+					}
+				case *ssa.Slice:
+					if al, ok := v.X.(*ssa.Alloc); ok && al.Heap && al.Block() == x.Block() {
+						fresh = true
+					}
+				case *ssa.Call:
+					// a helper that returns a slice it made (newRow(i, width))
+					if g := eng.StaticCallee(v); g != nil && g.Blocks != nil && eng.InModule(g) && eng.InLoop(v.Block()) {
+						all, n := true, 0
+						for _, r := range eng.Returns(g) {
+							rv := eng.ReturnValues(r)
+							if len(rv) == 0 {
+								continue
+							}
+							n++
+							if _, isMk := rv[0].(*ssa.MakeSlice); !isMk {
+								all = false
+							}
+						}
+						hs := enclosingLoopHeaders(x.Block())
+						fresh = all && n > 0 && len(hs) > 0 && hs[len(hs)-1].Dominates(v.Block()) && (hs[len(hs)-1] != v.Block() || v.Block() == x.Block())
+					}
+				}
+				c.Check(fresh, R, fmt.Sprintf("%s#row-storage%d", eng.FuncName(fn), nRow), x.Pos(), "each grid row is a slice made in the same loop trip",
+					"a row of the grid is not a slice made for it in the same loop trip (a shared or reused row): cells written to one row show up in every row that shares the storage")
+			}
+		})
+	}
+}
+
+// R6.10 [C06, C01]
+func ruleTokenValueOwned(c *eng.Ctx) {
+	const R = "R6.10-TOKEN-VALUE-OWNED"
+	c.Rule(R, "the bytes of a token belong to the token: the Value stored in a core.Token is built in storage of the call that makes the token (a local buffer, a literal, a copy), never taken from a buffer kept in the Lexer, which the next token overwrites while the parser still holds this one as lookahead", 8, 0)
+	n := 0
+	for _, fn := range c.P.ModuleFuncs() {
+		if fn.Pkg == nil || eng.ShortPath(fn.Pkg.Pkg.Path()) != "core" || fn.Signature.Recv() == nil || len(fn.Params) == 0 {
+			continue
+		}
+		if !strings.HasSuffix(eng.TypeName(fn.Params[0].Type()), "core.Lexer") {
+			continue
+		}
+		recv := ssa.Value(fn.Params[0])
+		k := 0
+		eng.Instrs(fn, false, func(in ssa.Instruction) {
+			st, ok := in.(*ssa.Store)
+			if !ok {
+				return
+			}
+			fr, ok := eng.AsField(st.Addr)
+			if !ok || fr.Field != "Value" || !strings.HasSuffix(fr.Struct, "core.Token") {
+				return
+			}
+			n++
+			k++
+			shared := token.NoPos
+			for w := range eng.Slice(st.Val, func(*ssa.Call) bool { return true }) {
+				fa, ok := w.(*ssa.FieldAddr)
+				if !ok || fa.X != recv {
+					continue
+				}
+				// a buffer-like field of the lexer (bytes.Buffer, []byte) feeding the token's bytes
+				ft := fa.Type().Underlying().(*types.Pointer).Elem()
+				if strings.HasSuffix(eng.TypeName(ft), "bytes.Buffer") {
+					shared = fa.Pos()
+				}
+				if sl, ok := ft.Underlying().(*types.Slice); ok {
+					if b, ok := sl.Elem().Underlying().(*types.Basic); ok && b.Kind() == types.Uint8 {
+						shared = fa.Pos()
+					}
+				}
+			}
+			c.Check(shared == token.NoPos, R, fmt.Sprintf("%s#value%d", eng.FuncName(fn), k), st.Pos(), "token bytes are the call's own",
+				"the token's Value comes from a buffer kept in the Lexer ("+c.P.Pos(shared)+"): the next token overwrites it while the parser still holds this token as lookahead")
+		})
+	}
+}
+
+// R13.7 [C13]
+func ruleWholeBlockOnlyUnderMax(c *eng.Ctx) {
+	const R = "R13.7-WHOLE-BLOCK-UNDER-MAX"
+	c.Rule(R, "textBlockToChunks emits a text block unsplit only on paths where the size calculator said it is not above the hard maximum (IsAboveMax false): a shortcut decided by another quantity (a byte length against another option) lets a block through that exceeds the configured maximum", 1, 0)
+	name := "rag.(*DocumentChunker).textBlockToChunks"
+	fn := c.P.Func(name)
+	if fn == nil {
+		c.Undec(R, name, token.NoPos, "anchor not found")
+		return
+	}
+	var blockP ssa.Value
+	for _, p := range fn.Params {
+		if strings.HasSuffix(eng.TypeName(p.Type()), "rag.textBlock") {
+			blockP = p
+		}
+	}
+	if blockP == nil {
+		c.Undec(R, name, fn.Pos(), "no text block parameter")
+		return
+	}
+	notAbove := func(f eng.Fact) bool {
+		if f.Pos {
+			return false
+		}
+		call, ok := f.Cond.(*ssa.Call)
+		return ok && strings.HasSuffix(eng.CalleeName(call), ").IsAboveMax")
+	}
+	n := 0
+	for _, ci := range eng.Calls(fn, false, func(nm string, _ ssa.CallInstruction) bool { return strings.HasSuffix(nm, ").createTextChunk") }) {
+		whole := false
+		for _, a := range ci.Common().Args {
+			if a == blockP {
+				whole = true
+			}
+			// the parameter spilled to a cell and loaded again
+			if ld, ok := a.(*ssa.UnOp); ok && ld.Op == token.MUL {
+				if al, ok := ld.X.(*ssa.Alloc); ok {
+					for _, r := range *al.Referrers() {
+						if st, ok := r.(*ssa.Store); ok && st.Addr == ssa.Value(al) && st.Val == blockP {
+							whole = true
+						}
+					}
+				}
+			}
+		}
+		if !whole {
+			continue
+		}
+		n++
+		c.Check(eng.GuardedBy(fn, ci.Block(), notAbove), R, fmt.Sprintf("%s#whole%d", name, n), ci.Pos(), "unsplit only when not above the maximum",
+			"the block can be emitted unsplit on a path that did not establish IsAboveMax == false: a block above the hard maximum becomes one chunk")
+	}
+	if n == 0 {
+		c.Undec(R, name+"#whole", fn.Pos(), "no unsplit emission of the block found")
+	}
+}
+
+// controllingIfs returns the branches inside the loop(s) around blk that decide, within one trip, whether blk is
+// reached: dominating Ifs of which exactly one successor can reach blk without starting the next trip.
+func controllingIfs(blk *ssa.BasicBlock) []*ssa.If {
+	var out []*ssa.If
+	hs := enclosingLoopHeaders(blk)
+	for d := blk.Idom(); d != nil; d = d.Idom() {
+		iff, ok := lastIf(d)
+		if !ok || !eng.InLoop(d) {
+			continue
+		}
+		var hdr *ssa.BasicBlock
+		for _, h := range hs {
+			if h.Dominates(d) {
+				hdr = h
+			}
+		}
+		reach := 0
+		for _, sx := range d.Succs {
+			if sx == blk || eng.ReachableBlocks([]*ssa.BasicBlock{sx}, func(x *ssa.BasicBlock) bool { return x == hdr })[blk] {
+				reach++
+			}
+		}
+		if reach == 1 {
+			out = append(out, iff)
+		}
+	}
+	return out
+}
+
+// R10.13 [C10]
+func rulePerPageDecision(c *eng.Ctx) {
+	const R = "R10.13-PER-PAGE-DECISION"
+	c.Rule(R, "in the page loop of Extractor.Text the choice of how a page is rendered depends on the options and on that page's own fragments, never on a value carried over from the pages before it (a verdict computed on the first page and kept): the text of page k is the same in every selection that contains it", 1, 0)
+	name := "tabula.(*Extractor).Text"
+	fn := c.P.Func(name)
+	if fn == nil {
+		c.Undec(R, name, token.NoPos, "anchor not found")
+		return
+	}
+	n := 0
+	for _, h := range eng.Cluster(fn, 1) {
+		if h.Pkg != fn.Pkg {
+			continue
+		}
+		for _, ci := range eng.Calls(h, false, func(nm string, _ ssa.CallInstruction) bool {
+			return strings.HasSuffix(nm, ").extractByColumn") || strings.HasSuffix(nm, ").assembleText") || strings.HasSuffix(nm, ").extractWithParagraphs") || strings.HasSuffix(nm, ").extractPreserveLayout")
+		}) {
+			if !eng.InLoop(ci.Block()) {
+				continue
+			}
+			n++
+			carried := token.NoPos
+			for _, iff := range controllingIfs(ci.Block()) {
+				for w := range eng.Slice(iff.Cond, func(*ssa.Call) bool { return true }) {
+					ph, ok := w.(*ssa.Phi)
+					if !ok || !isLoopCarried(ph) {
+						continue
+					}
+					if _, isInd := eng.Induction(ph); isInd {
+						continue
+					}
+					if bt, ok := ph.Type().Underlying().(*types.Basic); ok && bt.Info()&(types.IsBoolean|types.IsInteger) != 0 {
+						carried = iff.Cond.Pos()
+					}
+				}
+			}
+			c.Check(carried == token.NoPos, R, fmt.Sprintf("%s#render%d", eng.FuncName(h), n), ci.Pos(), "decided from the options and the page itself",
+				"how the page is rendered depends on a value carried over from earlier pages of the selection ("+c.P.Pos(carried)+"): the same page comes out differently depending on which pages precede it")
+		}
+	}
+	if n == 0 {
+		// the renderer may be a function value chosen before the loop from the options alone: nothing carried
+		// between pages can then influence it; no claim is made about other shapes
+		c.Ok(R, name+"#render", fn.Pos(), "not evaluated: no direct per-page rendering call in the page loop")
 	}
 }
